@@ -10,14 +10,19 @@ import (
 	"bufio"
 	"bytes"
 	"context"
+	"encoding/base64"
+	"encoding/hex"
 	"encoding/json"
 	"flag"
 	"fmt"
+	"net"
+	"net/http"
 	"net/http/httptest"
 	"os"
 	"path/filepath"
 	"sort"
 	"strings"
+	"sync"
 	"time"
 
 	"github.com/nuetzliches/hookaido/internal/app"
@@ -102,11 +107,43 @@ func cmdOpFront(args []string) error {
 	}
 	base := time.Date(2026, 2, 7, 12, 0, 0, 0, time.UTC)
 
+	// MCP in admin-proxy mode (memory backend): the tools call the Admin API over TCP. One listener for the whole run; the
+	// handler behind it is the Admin server of the case at hand.
+	ln, err := net.Listen("tcp", "127.0.0.1:0")
+	if err != nil {
+		return err
+	}
+	defer ln.Close()
+	var curMu sync.Mutex
+	var curAdmin http.Handler
+	go func() {
+		_ = http.Serve(ln, http.HandlerFunc(func(w http.ResponseWriter, req *http.Request) {
+			curMu.Lock()
+			h := curAdmin
+			curMu.Unlock()
+			if h == nil {
+				w.WriteHeader(503)
+				return
+			}
+			h.ServeHTTP(w, req)
+		}))
+	}()
+	proxyText := strings.Replace(opFrontConfig, "admin_api {\n", fmt.Sprintf("admin_api {\n  listen %s\n", ln.Addr().String()), 1)
+	proxyText = strings.ReplaceAll(proxyText, "  pull { path", "  queue { backend memory }\n  pull { path")
+	proxyCfgPath := filepath.Join(dir, "Hookaidofile.proxy")
+	if err := os.WriteFile(proxyCfgPath, []byte(proxyText), 0o600); err != nil {
+		return err
+	}
+	compiledProxy, err := compileText(proxyText)
+	if err != nil {
+		return fmt.Errorf("proxy configuration: %w", err)
+	}
+
 	for c := 0; c < *n; c++ {
-		via := pick(r, []string{"mcp-sqlite", "admin-memory", "admin-sqlite"})
+		via := pick(r, []string{"mcp-sqlite", "admin-memory", "admin-sqlite", "mcp-proxy-memory"})
 		dbPath := filepath.Join(dir, fmt.Sprintf("q%d.db", c))
 		var store queue.Store
-		if via == "admin-memory" {
+		if via == "admin-memory" || via == "mcp-proxy-memory" {
 			store = queue.NewMemoryStore()
 		} else {
 			sq, err := queue.NewSQLiteStore(dbPath)
@@ -138,7 +175,7 @@ func cmdOpFront(args []string) error {
 		before := snapStore(store)
 
 		// the call
-		kind := pick(r, []string{"cancel_f", "requeue_f", "resume_f", "cancel_f", "requeue_f", "resume_f", "cancel", "requeue", "resume", "dlq_requeue", "dlq_delete"})
+		kind := pick(r, []string{"cancel_f", "requeue_f", "resume_f", "cancel_f", "requeue_f", "resume_f", "cancel", "requeue", "resume", "dlq_requeue", "dlq_delete", "publish", "publish", "publish"})
 		byFilter := strings.HasSuffix(kind, "_f")
 		argsM := map[string]interface{}{"reason": "verif"}
 		f := jfilter{}
@@ -148,6 +185,52 @@ func cmdOpFront(args []string) error {
 		}
 		expectRefusal := ""
 		app_, name := "", ""
+		type pubItem struct {
+			ID      string `json:"id"`
+			Route   string `json:"route"`
+			Payload string `json:"payload"`
+			Recv    int64  `json:"recv"`
+			Next    int64  `json:"next"`
+			Headers string `json:"headers"`
+		}
+		var pubItems []pubItem
+		var pubPayload []map[string]interface{}
+		if kind == "publish" {
+			// 1-3 items for one selector: the unmanaged route, or a managed endpoint
+			if r.chance(50) {
+				app_, name = "billing", "invoice.created"
+				if r.chance(40) {
+					app_, name = "ops", "alerts"
+				}
+			}
+			route := "/other"
+			if app_ != "" {
+				route = opFrontManaged[[2]string{app_, name}]
+			}
+			for k := 0; k < 1+r.intn(3); k++ {
+				it := pubItem{ID: fmt.Sprintf("pub%d-%d", c, k), Route: route}
+				payload := []byte(fmt.Sprintf("published %d/%d", c, k))
+				it.Payload = hex.EncodeToString(payload)
+				rec := map[string]interface{}{"id": it.ID, "payload_b64": base64.StdEncoding.EncodeToString(payload)}
+				if r.chance(50) {
+					t := base.Add(time.Duration(10+r.intn(600)) * time.Minute) // due in the future
+					it.Next = t.UnixNano()
+					rec["next_run_at"] = t.Format(time.RFC3339)
+				}
+				if r.chance(40) {
+					t := base.Add(-time.Duration(1+r.intn(300)) * time.Minute)
+					it.Recv = t.UnixNano()
+					rec["received_at"] = t.Format(time.RFC3339)
+				}
+				if r.chance(50) {
+					h := map[string]string{"X-P": fmt.Sprintf("v%d", k)}
+					it.Headers = canonMap(h)
+					rec["headers"] = h
+				}
+				pubItems = append(pubItems, it)
+				pubPayload = append(pubPayload, rec)
+			}
+		}
 		if byFilter {
 			switch r.weighted([]int{8, 40, 45, 7}) {
 			case 0: // no selector at all
@@ -190,7 +273,7 @@ func cmdOpFront(args []string) error {
 				argsM["preview_only"] = true
 			}
 			op.F = &f
-		} else {
+		} else if kind != "publish" {
 			k := 1 + r.intn(4)
 			for i := 0; i < k; i++ {
 				id := pick(r, ids)
@@ -204,16 +287,49 @@ func cmdOpFront(args []string) error {
 
 		resp := jresp{T: "err"}
 		raw := ""
+		if kind == "publish" {
+			delete(argsM, "ids")
+		}
 		switch via {
-		case "mcp-sqlite":
-			if c, ok := store.(interface{ Close() error }); ok {
-				_ = c.Close()
+		case "mcp-sqlite", "mcp-proxy-memory":
+			if via == "mcp-sqlite" {
+				if c, ok := store.(interface{ Close() error }); ok {
+					_ = c.Close()
+				}
+			} else {
+				rtp, err := app.VerifNewRuntime(compiledProxy, nil)
+				if err != nil {
+					return err
+				}
+				curMu.Lock()
+				curAdmin = rtp.AdminServer(store)
+				curMu.Unlock()
+			}
+			if kind == "publish" {
+				var items []map[string]interface{}
+				for _, rec := range pubPayload {
+					it := map[string]interface{}{}
+					for k, v := range rec {
+						it[k] = v
+					}
+					if app_ != "" {
+						it["application"], it["endpoint_name"] = app_, name
+					} else {
+						it["route"] = "/other"
+					}
+					items = append(items, it)
+				}
+				argsM["items"] = items
 			}
 			tool := map[string]string{"cancel_f": "messages_cancel_by_filter", "requeue_f": "messages_requeue_by_filter", "resume_f": "messages_resume_by_filter",
-				"cancel": "messages_cancel", "requeue": "messages_requeue", "resume": "messages_resume", "dlq_requeue": "dlq_requeue", "dlq_delete": "dlq_delete"}[kind]
+				"cancel": "messages_cancel", "requeue": "messages_requeue", "resume": "messages_resume", "dlq_requeue": "dlq_requeue", "dlq_delete": "dlq_delete", "publish": "messages_publish"}[kind]
+			mcpCfg := cfgPath
+			if via == "mcp-proxy-memory" {
+				mcpCfg = proxyCfgPath
+			}
 			var ob, ab bytes.Buffer
 			s := mcp.NewServer(bytes.NewReader(frame(map[string]interface{}{"jsonrpc": "2.0", "id": 7, "method": "tools/call",
-				"params": map[string]interface{}{"name": tool, "arguments": argsM}})), &ob, cfgPath, dbPath,
+				"params": map[string]interface{}{"name": tool, "arguments": argsM}})), &ob, mcpCfg, dbPath,
 				mcp.WithRole(mcp.RoleAdmin), mcp.WithMutationsEnabled(true), mcp.WithPrincipal("ops@example"), mcp.WithAuditWriter(&ab))
 			_ = s.Serve(context.Background())
 			for _, fr := range readFrames(ob.Bytes()) {
@@ -233,25 +349,43 @@ func cmdOpFront(args []string) error {
 					raw = string(b)
 				}
 			}
-			sq, err := queue.NewSQLiteStore(dbPath)
-			if err != nil {
-				return err
+			if via == "mcp-sqlite" {
+				sq, err := queue.NewSQLiteStore(dbPath)
+				if err != nil {
+					return err
+				}
+				store = sq
 			}
-			store = sq
 		default:
 			rt, err := app.VerifNewRuntime(compiled, nil)
 			if err != nil {
 				return err
 			}
 			p := map[string]string{"cancel_f": "/messages/cancel_by_filter", "requeue_f": "/messages/requeue_by_filter", "resume_f": "/messages/resume_by_filter",
-				"cancel": "/messages/cancel", "requeue": "/messages/requeue", "resume": "/messages/resume", "dlq_requeue": "/dlq/requeue", "dlq_delete": "/dlq/delete"}[kind]
+				"cancel": "/messages/cancel", "requeue": "/messages/requeue", "resume": "/messages/resume", "dlq_requeue": "/dlq/requeue", "dlq_delete": "/dlq/delete", "publish": "/messages/publish"}[kind]
 			body := map[string]interface{}{}
 			for k, v := range argsM {
 				if k != "reason" {
 					body[k] = v
 				}
 			}
-			if app_ != "" && r.chance(50) {
+			if kind == "publish" {
+				var items []map[string]interface{}
+				for _, rec := range pubPayload {
+					it := map[string]interface{}{}
+					for k, v := range rec {
+						it[k] = v
+					}
+					if app_ == "" {
+						it["route"] = "/other"
+					}
+					items = append(items, it)
+				}
+				body = map[string]interface{}{"items": items}
+				if app_ != "" {
+					p = "/applications/" + app_ + "/endpoints/" + name + "/messages/publish"
+				}
+			} else if app_ != "" && r.chance(50) {
 				// the endpoint-scoped form of the same request
 				p = "/applications/" + app_ + "/endpoints/" + name + "/messages/" + strings.TrimSuffix(kind, "_f") + "_by_filter"
 				delete(body, "application")
@@ -284,6 +418,10 @@ func cmdOpFront(args []string) error {
 		if len(raw) > 300 {
 			raw = raw[:300]
 		}
+		if kind == "publish" {
+			emit(map[string]interface{}{"k": "frontpub", "case": c, "via": via, "items": pubItems, "selector": [2]string{app_, name}, "resp": resp, "raw": raw, "before": before, "after": after})
+			continue
+		}
 		emit(map[string]interface{}{"k": "front", "case": c, "via": via, "op": op, "selector": [2]string{app_, name}, "expectRefusal": expectRefusal, "resp": resp, "raw": raw, "before": before, "after": after})
 	}
 	return nil
@@ -294,7 +432,7 @@ func countResp(m map[string]interface{}, kind string) jresp {
 		v, ok := m[k].(float64)
 		return int(v), ok
 	}
-	key := map[string]string{"cancel_f": "canceled", "requeue_f": "requeued", "resume_f": "resumed", "cancel": "canceled", "requeue": "requeued", "resume": "resumed",
+	key := map[string]string{"publish": "published", "cancel_f": "canceled", "requeue_f": "requeued", "resume_f": "resumed", "cancel": "canceled", "requeue": "requeued", "resume": "resumed",
 		"dlq_requeue": "requeued", "dlq_delete": "deleted"}[kind]
 	ch, ok := num(key)
 	mt, okm := num("matched")
